@@ -227,6 +227,50 @@ func c13Exact(cx *explore.Ctx, q run.Query, got []lang.SemanticToken, body *hcls
 			}
 		}
 	}
+	// object literals under an object constraint: a key token on exactly the items whose key is a declared attribute
+	// written as a plain or quoted name
+	for _, z := range zones {
+		names := map[string]bool{}
+		switch c := z.cons.(type) {
+		case schema.Object:
+			for n := range c.Attributes {
+				names[n] = true
+			}
+		case schema.LiteralType:
+			if c.Type.IsObjectType() {
+				for n := range c.Type.AttributeTypes() {
+					names[n] = true
+				}
+			}
+		case schema.AnyExpression:
+			if c.OfType.IsObjectType() {
+				for n := range c.OfType.AttributeTypes() {
+					names[n] = true
+				}
+			}
+		}
+		obj, ok := z.attr.Expr.(*hclsyntax.ObjectConsExpr)
+		if len(names) == 0 || !ok {
+			continue
+		}
+		for _, it := range obj.Items {
+			kr := it.KeyExpr.Range()
+			key, isLit := model.LiteralKey(it.KeyExpr)
+			known := isLit && names[key]
+			n := 0
+			for _, t := range got {
+				if t.Type == lang.TokenObjectKey && kr.Start.Byte <= t.Range.Start.Byte && t.Range.End.Byte <= kr.End.Byte {
+					n++
+				}
+			}
+			cx.L.Count("exact_object_keys", 1)
+			if known && n != 1 {
+				add("tokens:object-key", "hcl-objectKey", fmt.Sprintf("the item key %q at %s is a declared attribute of the object but has %d key tokens", key, fmtRange(kr), n))
+			} else if !known && n > 0 {
+				add("tokens:object-key-on-undeclared-item", "hcl-objectKey", fmt.Sprintf("the item key at %s is no declared attribute written as a name, yet it has a key token", fmtRange(kr)))
+			}
+		}
+	}
 	// simple literal values: exactly one token of the literal's type covering the literal
 	for _, z := range zones {
 		var wantT lang.SemanticTokenType
